@@ -149,6 +149,8 @@ pub struct Observed {
     pub tx_dcep: Vec<(u16, Vec<u8>)>,
     pub ctl: Vec<u8>,
     pub sack: Option<u32>,
+    /// a_rwnd of the last SACK the endpoint emitted
+    pub sack_rwnd: Option<u32>,
     pub states: Vec<(u16, usize)>,
     pub tx_data: Vec<DataC>,
     pub packets: Vec<Packet>,
@@ -168,7 +170,7 @@ impl Observed {
             "events": self.per_chan.iter().map(|(s, e)| serde_json::json!({"sid": s, "ev": e.iter().map(|x| x.short()).collect::<Vec<_>>()})).collect::<Vec<_>>(),
             "new_channels": self.newdc.iter().map(|c| c.json()).collect::<Vec<_>>(),
             "dcep_sent": self.tx_dcep.iter().map(|(s, p)| serde_json::json!({"sid": s, "bytes": p.iter().map(|b| format!("{:02x}", b)).collect::<String>()})).collect::<Vec<_>>(),
-            "ctl": self.ctl, "last_sack_cum": self.sack, "states": self.states, "dead": self.dead,
+            "ctl": self.ctl, "last_sack_cum": self.sack, "last_sack_a_rwnd": self.sack_rwnd, "states": self.states, "dead": self.dead,
         })
     }
 }
@@ -182,6 +184,9 @@ pub fn sctp_config() -> RtcConfiguration {
     c.sctp_heartbeat_interval = Duration::from_secs(3600);
     c
 }
+
+/// the receive window every endpoint under test is configured with (config.sctp_receive_window)
+pub fn local_rwnd() -> u32 { sctp_config().sctp_receive_window as u32 }
 
 pub struct Assoc {
     pub pair: DtlsPair,
@@ -389,7 +394,7 @@ impl Assoc {
                         if dc.ppid == 50 { o.tx_dcep.push((dc.sid, dc.data.clone())); }
                         o.tx_data.push(dc);
                     },
-                    3 => if let Some(s) = parse_sack(&c.value) { o.sack = Some(s.cum); },
+                    3 => if let Some(s) = parse_sack(&c.value) { o.sack = Some(s.cum); o.sack_rwnd = Some(s.a_rwnd); },
                     2 | 10 | 11 | 130 => o.ctl.push(c.ty),
                     _ => {}
                 }
@@ -431,10 +436,11 @@ pub fn recv_case_term_with(chans: &[ChanCfg], hist_term: String, obs: Vec<String
             big_list(&w.iter().map(|s| s.term()).collect::<Vec<_>>()), t0),
         None => "None".into(),
     };
-    format!("RecvCase {} {} {} {} {} {} {} {} {}",
+    format!("RecvCase {} {} {} {} {} {} {} {} {} {} {}",
         list_term(&chans.iter().map(|c| c.term()).collect::<Vec<_>>()), hist_term,
         list_term(&obs), list_term(&o.newdc.iter().map(|c| c.term()).collect::<Vec<_>>()), list_term(&tx),
-        zlist(o.ctl.iter().map(|x| *x as i128)), opt_term(o.sack.map(|x| x.to_string())), list_term(&states), spec_t)
+        zlist(o.ctl.iter().map(|x| *x as i128)), opt_term(o.sack.map(|x| x.to_string())), list_term(&states), spec_t,
+        local_rwnd(), opt_term(o.sack_rwnd.map(|x| x.to_string())))
 }
 
 // ------------------------------------------------------------------------------ sender side
